@@ -114,8 +114,13 @@ def execute_pairs(pairs, flname, *, mk=1, maxd=4, procs=16, chunk=400, use_src=F
     if procs <= 1 or len(chunks) <= 1:
         res = [_exec_chunk(c) for c in chunks]
     else:
-        with mp.get_context("fork").Pool(min(procs, len(chunks)), initializer=_init_worker) as pool:
-            res = pool.map(_exec_chunk, chunks)
+        import gc
+        gc.freeze()      # the forked workers inherit the caller's heap: keep their collector from touching (= copying) it
+        try:
+            with mp.get_context("fork").Pool(min(procs, len(chunks)), initializer=_init_worker) as pool:
+                res = pool.map(_exec_chunk, chunks)
+        finally:
+            gc.unfreeze()
     return [r for ch in res for r in ch]
 
 
